@@ -9,11 +9,17 @@
  *   intervals  End of Data interval triples x modes x initial settings; rtr_init rejection       (C17)
  *   reload     forced full reloads with overlapping old/new sets and update callbacks            (C09 C10)
  */
+#include "allocmon.h"
 #include "sim_int.h"
 
 #include "rtrlib/rtr_mgr_private.h"
 
 VCOMMON_GLOBALS
+ALLOCMON_GLOBALS
+
+static bool ALLOC_MODE; /* allocsync: the counting / failing allocator is installed */
+static unsigned long ALLOC_FAIL_AT;
+static unsigned long ALLOC_REQUESTS; /* measured by the last run */
 
 #define VBASE 1000000
 
@@ -21,7 +27,7 @@ static struct universe U;
 
 struct scen {
 	struct simcfg cfg;
-	int np, nk, init_records;
+	int np, nk, init_records, init_keys;
 	int cache_version, v0_mode;
 	bool no_data;
 	uint16_t session;
@@ -91,6 +97,11 @@ static int run_scen(struct scen *sc, uint64_t seed, struct sim *keep)
 
 	r.s = seed ^ 0x5eed;
 	VNOW = 1000000;
+	if (ALLOC_MODE) {
+		am_reset();
+		AM.fail_at = ALLOC_FAIL_AT;
+		am_install();
+	}
 	universe_build(&U, &r, sc->np, sc->nk);
 	sim_init(s, &U, &sc->cfg, seed ^ 0xabcdef);
 	s->cache.version = sc->cache_version;
@@ -101,12 +112,12 @@ static int run_scen(struct scen *sc, uint64_t seed, struct sim *keep)
 	s->cache.eod_refresh = sc->eod_iv[0];
 	s->cache.eod_retry = sc->eod_iv[1];
 	s->cache.eod_expire = sc->eod_iv[2];
-	s->cache.announce_cap = sc->announce_cap < U.np ? sc->announce_cap : U.np;
+	s->cache.announce_cap = U.np;
 	bs_zero(&p);
 	bs_zero(&k);
 	for (int i = 0; i < sc->init_records && s->cache.announce_cap > 0; i++)
 		bs_set(&p, (int)rndn(&r, (uint32_t)s->cache.announce_cap));
-	for (int i = 0; i < sc->init_records / 4 && U.nk; i++)
+	for (int i = 0; i < (sc->init_keys ? sc->init_keys : sc->init_records / 4) && U.nk; i++)
 		bs_set(&k, (int)rndn(&r, (uint32_t)U.nk));
 	sim_cache_push_dataset(s, &p, &k);
 
@@ -173,6 +184,23 @@ out:
 			viol("C09", "C09:free-leaves-log-nonempty", "after pfx_table_free the replayed change log still holds %d records", s->cb->np);
 	}
 	spki_table_free(&spkit);
+	if (ALLOC_MODE) {
+		ALLOC_REQUESTS = AM.requests;
+		if (AM.failures_injected)
+			CNT("c18/sync/runs_with_injected_failure");
+		if (ALLOC_FAIL_AT == 0 || AM.failures_injected == 0) {
+			CNT("c18/sync/leak_checks");
+			if (AM.live_blocks != 0 || AM.bad_free) {
+				char key[96];
+
+				snprintf(key, sizeof(key), "C18:sync:%s:%s", AM.bad_free ? "foreign-free" : "leak", sc->restart_after_phase1 ? "stop-mid-run" : "plain");
+				viol("C18", key, "failure-free synchronisation scenario: %ld blocks (%ld bytes) still allocated after stop and table free, %lu bad frees",
+				     AM.live_blocks, AM.live_bytes, AM.bad_free);
+			}
+		}
+		am_reset();
+		am_uninstall();
+	}
 	sim_free(s);
 	return 0;
 }
@@ -485,6 +513,63 @@ static void gen_reload(struct scen *sc, struct rng *r, long c)
 		add_event(&sc->cfg, (time_t)(1 + i * (sc->cfg.refresh + 1)), 1, 1 + rndn(r, 20));
 }
 
+/* C18: a base conversation that reaches the allocation sites of a synchronisation: temporary PDU stores
+ * (> 100 PDUs), node / element / key allocations, hash-table growth (> 33 keys), shadow tables and copies */
+static void gen_alloc_base(struct scen *sc, struct rng *r)
+{
+	scen_defaults(sc, r);
+	sc->np = 600;
+	sc->nk = MAX_K;
+	sc->init_records = 380 + (int)rndn(r, 100);
+	sc->init_keys = 400;
+	sc->cfg.refresh = 30 + rndn(r, 50);
+	sc->cfg.retry = 1 + rndn(r, 5);
+	sc->cfg.expire = 600 + rndn(r, 600);
+	sc->cfg.chunk_rx = CH_MAX;
+	sc->cfg.chunk_tx = CH_MAX;
+	add_event(&sc->cfg, 5, 1, 12);
+	sc->cfg.xplan[0].pos = sc->cfg.xplan[1].pos = sc->cfg.xplan[3].pos = -1;
+	sc->cfg.xplan[2].override = AO_CACHE_RESET;
+	sc->cfg.xplan[2].pos = -1;
+	sc->cfg.nxplan = 4;
+	add_event(&sc->cfg, (time_t)sc->cfg.refresh + 10, 1, 9);
+	sc->final_convergence = true;
+}
+
+static void gen_allocsync(struct scen *sc, struct rng *r, long c, uint64_t seed)
+{
+	long base_id = c / 1024, slot = c % 1024;
+	struct rng rb;
+	static struct sim dry;
+
+	(void)r;
+	rng_seed(&rb, seed ^ 0xa110c, (uint64_t)base_id);
+	gen_alloc_base(sc, &rb);
+	if (slot >= 1000) {
+		/* failure-free variants: leak accounting, incl. rtr_stop at the k-th cancellation point */
+		ALLOC_FAIL_AT = 0;
+		if (slot > 1000) {
+			sc->cfg.c08_mode = false;
+			sc->cfg.stop_at_parkable = 1 + (slot - 1000) * 7;
+			sc->restart_after_phase1 = 1;
+			sc->cfg2 = sc->cfg;
+			sc->cfg2.stop_at_parkable = 0;
+			sc->cfg2.c08_mode = true;
+		}
+		return;
+	}
+	struct scen d = *sc;
+
+	VO.muted = true;
+	ALLOC_FAIL_AT = 0;
+	run_scen(&d, mix64(seed, (uint64_t)base_id), &dry);
+	VO.muted = false;
+	unsigned long n = ALLOC_REQUESTS ? ALLOC_REQUESTS : 1;
+
+	ALLOC_FAIL_AT = 1 + (unsigned long)slot * n / 1000;
+	cnt_max("max:c18/sync/allocations_in_base_conversation", n);
+}
+
 /* rtr_init must reject exactly the out-of-range interval triples */
 static void intervals_init_case(long c)
 {
@@ -592,7 +677,14 @@ int main(int argc, char **argv)
 			gen_intervals(&sc, &r, c);
 		else if (!strcmp(mode, "reload"))
 			gen_reload(&sc, &r, c);
-		else if (!strcmp(mode, "ivinit")) {
+		else if (!strcmp(mode, "allocsync")) {
+			ALLOC_MODE = true;
+			SIM_ALLOC_PAUSE = &AM.paused;
+			gen_allocsync(&sc, &r, c, seed);
+			CNT("sim/scenarios");
+			run_scen(&sc, mix64(seed, (uint64_t)(c / 1024)), NULL);
+			continue;
+		} else if (!strcmp(mode, "ivinit")) {
 			intervals_init_case(c);
 			continue;
 		} else
